@@ -2,12 +2,15 @@
 
 Translator `batch_marks`: backends/__init__.py (ast) -> lean/EkwVerif/Gen/BackendMarks.lean,
 cross-checked with the `batchable` attribute the imported functions really carry.
-Tie: every backend operation, on NumPy arrays, xarray DataArrays and Datasets, of dtype int64 / int32 / uint8 / bool /
-float64, against Model/BackendRun.lean: error CAUSE, result dtype, shape, every value EXACTLY (integers as integers with
-NumPy's wrap-around, float64 bit for bit through Model/F64.lean) and the coordinate labels of xarray results.
-Oracle (from the property text only, harness/ekw/c15_oracle.py): direct NumPy on the raw data, exact, and for every
-function that carries the `batchable` attribute at run time the law f(f(batch_1), ..., f(batch_k)) == NumPy f(all) for
-every cut into consecutive batches (as reduce() forms them, and read literally).
+Tie: every backend operation, on NumPy arrays, xarray DataArrays and Datasets, of every numeric dtype of NumPy (bool, int8-64,
+uint8-64, float16/32/64, complex64/128), against Model/BackendRun.lean: error CAUSE, result dtype, shape and the coordinate
+labels of xarray results for all of them; every VALUE exactly for bool, the eight integer dtypes (NumPy's wrap-around),
+float64 and float32 (bit for bit through Model/F64.lean; not float32 pow) and for float16 where no accumulation is involved;
+float16 reductions, float16 / float32 pow and all complex values are compared by the oracle only (counted as tie_values:opaque:*).
+Oracle (from the property text only, harness/ekw/c15_oracle.py): direct NumPy on the raw data -- value AND result dtype, bit
+for bit, every dtype -- and for every function that carries the `batchable` attribute at run time the law
+f(f(batch_1), ..., f(batch_k)) == NumPy f(all) for every cut into consecutive batches (as reduce() forms them, and read
+literally).  Where NumPy itself raises the text demands nothing: counted (oracle_silent:*), compared with the model only.
 Helper modules: ekw/c15_real.py (real side, canonical forms), ekw/c15_oracle.py, ekw/c15_gen.py (generators).
 """
 import ast
@@ -16,55 +19,74 @@ import json
 import numpy as np
 
 from ekw.c15_real import (ALL_OPS, BINARY, REDUCTIONS, VARIADIC, arg_shape, canon_impl, canon_model, dtype_of, flat,
-                          map_vals, model_request, n_vars, py_kind, run_impl, same_canon, shape_of)
-from ekw.c15_oracle import mixed_presence, numpy_reference, oracle, same_values
+                          map_vals, model_request, n_vars, py_kind, run_impl, same_canon, shape_of, value_mode)
+from ekw.c15_oracle import STATS, bound_selftest, mixed_presence, numpy_reference, oracle, same_values
 from ekw import c15_gen as G
 
 PROPERTY = "C15"
 LEVEL_TEXT = ("Lean theorems over Model/Backend.lean (arrays of any rank/shape over ANY element type with the dtype's arithmetic as a "
               "parameter): sum, prod, min, max are batchable -- f(f(b_1),...,f(b_k)) = f(all) for EVERY cut into >= 2 non-empty batches, "
               "singleton batches passed through as fluent reduce does -- for every dtype whose operation is associative, which is PROVED "
-              "for exact rationals, for NumPy's wrapping fixed-width integers (any width, signed or not), for bool, and (min/max) for "
-              "IEEE binary64 incl. NaN and infinities (Model/F64.lean: bit-exact +,-,*,/ with round-to-nearest-even); concat for every "
-              "element type; the law is REFUTED for float64 sum and prod (c15_sum_dtype_full_fails, c15_prod_dtype_full_fails: "
-              "rounding; known finding, witness replayed on the real code). The law read literally (every batch through f, k >= 1) is "
+              "for exact rationals, for NumPy's wrapping fixed-width integers (any width, signed or not: int8..int64, uint8..uint64), for "
+              "bool, and (min/max) for IEEE binary64, binary32 and binary16 incl. NaN and infinities (Model/F64.lean: bit-exact +,-,*,/ "
+              "with round-to-nearest-even; float32 / float16 = the binary64 operation followed by a bit-exact rounding to the narrow "
+              "format, which is the narrow format's own correctly rounded operation by the double-rounding theorem -- CITED, not "
+              "proved); concat for every element type; the law is REFUTED for float64, float32 and float16 sum and for float64 and "
+              "float32 prod (c15_sum_dtype_full_fails, c15_prod_dtype_full_fails, c15_sum_f32_full_fails, c15_prod_f32_full_fails, "
+              "c15_sum_f16_full_fails: rounding; known finding, witnesses replayed on the real code). The result DTYPE obeys the law for "
+              "all 14 dtypes (c15_batched_dtype_stable). The law read literally (every batch through f, k >= 1) is "
               "proved for concat, proved for the reductions on the partitions without a single-array batch (c15_literal_partial) and "
               "refuted otherwise (c15_literal_full_fails; known finding). mean, std, var and stack are not batchable (witnesses, also in "
               "binary64); the @batchable marks read from the source on every run are sound for every associative dtype, exact for the "
-              "nine variadic functions, and not sound for float64 as the law is written (c15_marks_sound_f64_full_fails). NaN "
-              "propagation of the float64 reductions is a theorem (c15_nan_propagates). Clause (a) -- each operation returns NumPy's "
-              "value -- has no theorem: it is carried by the differential correspondence check (exact values, dtype, error cause, "
-              "coordinate labels) and the independent NumPy oracle.")
+              "nine variadic functions, and not sound for float64 / float32 as the law is written (c15_marks_sound_f64_full_fails, "
+              "c15_marks_sound_f32_full_fails). NaN propagation of the float64 / float32 / float16 reductions is a theorem (c15_nan_propagates, "
+              "c15_nan_propagates_narrow). Complex "
+              "arithmetic has no model and no theorem. Clause (a) -- each operation returns NumPy's value -- has no theorem: it is "
+              "carried by the differential correspondence check (result dtype, shape, error cause, coordinate labels for all 14 "
+              "dtypes; exact values for all but float16 reductions, float16 / float32 pow and complex data) and by the independent NumPy oracle (value "
+              "and dtype, bit for bit, all 14 dtypes); both SAMPLE the input space (RULE), they do not exhaust it.")
 LEVEL_NOTE = ("modelled, not verified: backends/__init__.py Backend.*, arrayapi.py ArrayAPIBackend.*, xarray.py XArrayBackend.* (value "
-              "semantics, result dtype, error causes, labels of results; dtypes int64/int32/uint8/uint64/bool/float64; mixed dtypes in "
+              "semantics, result dtype under NumPy-2 promotion incl. weak Python scalars, error causes, labels of results; all 14 "
+              "numeric dtypes, of which float16 reductions, float16 / float32 pow and complex VALUES are opaque to the model; mixed dtypes in "
               "one call, keepdims/ddof/out kwargs, attrs, non-index coordinates and float pow with non-integer exponents are outside the "
               "model); NumPy/xarray themselves are trusted, including NumPy's order of additions (left to right; pairwise for a flat "
-              "reduction of >= 8 elements, mirrored by vsumNp); the FieldList backend (earthkit.py) cannot be imported here and is not "
-              "covered")
+              "reduction of >= 8 elements, mirrored by vsumNp, float32 as float64); that rounding binary64 -> binary32/16 after one "
+              "+,-,*,/ equals the narrow operation is a cited fact (Figueroa 1995; Roux 2014), tested on every float32 / float16 case; "
+              "the FieldList backend (earthkit.py) cannot be imported here and is not covered")
 TECHNIQUE = ("Lean 4 proof (induction over batch lists; pointwise lifting of scalar fold laws to arrays; dtype arithmetic as a parameter; "
              "binary64 decided by kernel evaluation) + AST translator of the @batchable marks + differential correspondence of both back "
              "ends with the model and with NumPy")
 LEAN_PROPS = ["EkwVerif.Props.C15"]
 LEAN_DRIVERS = ["C15"]
-RULE = ("every run: the witnesses of the known findings and of this round's fixes; every one of the 15 operations on every container "
-        "(ndarray / DataArray / Dataset) twice with int64 data and once with each of float64, int32, uint8, bool; int64 magnitudes around 2^53 and the int64 "
+RULE = ("every run: the witnesses of the known findings and of this round's fixes (incl. float32 / float16 sum, mean, prod of values "
+        "that round, on every container; take with uint64 / int8 / uint8 indices); every one of the 15 operations on every container "
+        "(ndarray / DataArray / Dataset) twice with int64 data and once with each of float64, int32, uint8, bool, and once with each of "
+        "float32, float16, int8, int16, uint16, uint32, uint64, complex64, complex128 on every container (<= 3 arguments); float32 values that round "
+        "with every reduction and binary operation on every container; the batch law for the five marked functions with float64, "
+        "float32, float16, uint8, int8, int32, uint64, bool, complex64; int64 magnitudes around 2^53 and the int64 "
         "limits; the axis sweep (every axis / dim value, by position, negative, by name, on 2-D and 3-D arrays of pairwise different "
         "extents). Random mix of the first generation (1-6 integer arrays of rank 0-3, extents 1-3, every axis form, int / list / ndarray "
         "indices) and of the second: dtypes float64 (small integers, dyadic, values that round, NaN / +-inf), int32 and uint8 near their "
         "limits (wrap-around), bool, Python int / float scalar operands incl. ones that do not fit; coordinate labels identical / on some "
         "dimensions / on some operands / shifted / permuted / partially overlapping; broadcasting shapes (different ranks, extents 1) "
         "in binary operations, stack and multi-argument reductions; tuple / list axes incl. empty and duplicate; zero extents; take with "
-        "0-d and NumPy-scalar indices, NumPy-integer dim, missing dim, dimension name on a plain array, method=sel incl. missing labels, "
+        "0-d and NumPy-scalar indices of every integer dtype (int8..uint64), NumPy-integer dim, missing dim, dimension name on a plain array, method=sel incl. missing labels, "
         "empty index lists; mixed ndarray / DataArray arguments; a decoy axis / dim with several arguments; stack onto an existing and "
         "concat along a missing dimension; Datasets whose variables differ in dims and dtype. For the variadic functions EVERY cut of the "
         "k arguments into >= 2 consecutive batches, and for the marked ones a sample of cuts (and the one-batch partition) read literally. "
         "non-trivial = the arguments hold >= 2 distinct values and (k >= 2 or rank >= 1); distinct by content hash of the case")
 ASSUMPTIONS = [
-    "all array arguments of one call have one dtype out of int64, int32, uint8, bool, float64 (the two variables of a Dataset may "
-    "differ); a Python int / float scalar is allowed as one operand of the binary operations (not with bool arrays); exponents of pow "
-    "are integers and float pow is generated only where the exact power is representable or 1/representable",
-    "float64 is compared bit for bit (the sign of zero is ignored, all NaNs are one NaN); where NumPy's order of additions is not "
+    "all array arguments of one call have one dtype out of bool, int8/16/32/64, uint8/16/32/64, float16/32/64, complex64/128 (the two "
+    "variables of a Dataset may differ); a Python int / float scalar is allowed as one operand of the binary operations (not with bool "
+    "arrays; complex pow only with array exponents: `ndarray ** 2` takes NumPy's square fast path, which differs from numpy.power in "
+    "the last bit for complex data); exponents of pow are integers and float pow is generated only where the exact power is "
+    "representable or 1/representable",
+    "floats are compared bit for bit (the sign of zero is ignored, all NaNs are one NaN; a complex number with a NaN part is a NaN); where NumPy's order of additions is not "
     "known to the model (tuple axes of var/std/mean, marked approx in the case) model and implementation are compared within 16 ulp",
+    "the result dtype is part of 'the value NumPy gives' (a float32 sum answered in float64 is reported as kind dtype); where NumPy "
+    "itself raises for the data nothing is demanded (counted oracle_silent:numpy-raises:*), and a refused MIXTURE of ndarray and "
+    "DataArray arguments is outside the quantifier of the text ('plain arrays and xarray objects alike')",
+    "complex products in batched cases use small integer parts (exact in complex64): complex data has no rounding-only verdict",
     "xarray operands are named by position, right-aligned (d(R-r)..d(R-1)); an xarray result is compared after sorting its d-dimensions "
     "by number (xarray orders the dimensions of a broadcast result by first appearance)",
     "labelled operands whose labels differ along a shared dimension (or, for concat, are present on only some operands along the joined "
@@ -273,9 +295,28 @@ def _cases(ctx, n):
         for be in ("np", "da", "ds"):
             cases.append(G.gen_typed(rng, op, be, "f64", "special"))
             cases.append(G.gen_typed(rng, op, be, "f64", "round"))
+    # (second audit) the rest of NumPy's numeric dtypes: every operation with every one of them on every container (at most
+    # three arguments, to bound the number of cuts), and float32 -- the dtype of most field data -- once more with values that
+    # round, with every reduction and binary operation on every container
+    conts = ("np", "da", "ds")
+    for op in ALL_OPS:
+        for dt in G.NEW_DTYPES:
+            for be in conts:
+                c = G.gen_typed(rng, op, be, dt)
+                while len(c["args"]) > 3:
+                    c = G.gen_typed(rng, op, be, dt)
+                if op in BINARY and rng.random() < 0.6:
+                    for _ in range(4):
+                        if not any(c.get("py") or []):
+                            break
+                        c = G.gen_typed(rng, op, be, dt)      # mostly array-with-array: the dtype's own arithmetic
+                cases.append(c)
+    for op in REDUCTIONS + BINARY:
+        for be in conts:
+            cases.append(G.gen_typed(rng, op, be, "f32", "round"))
     # the batch law on every dtype for every marked function
     for op in ("sum", "prod", "min", "max", "concat"):
-        for dt in ("f64", "u8", "i32", "bool"):
+        for dt in ("f64", "u8", "i32", "bool", "f32", "f16", "u64", "i8", "c64"):
             for _ in range(ctx.budget(1, 6)):
                 cases.append(G.gen_batch(rng, op, None, dt))
     # integer magnitudes around and beyond 2^53 (exact in int64 only): every such operation on every backend
@@ -316,6 +357,8 @@ def _count_case(ctx, base):
         ctx.count("with_coords")
     if base["op"] == "take":
         ctx.count("take_index:" + base["index_type"])
+        if base.get("index_dtype"):
+            ctx.count("take_index_dtype:" + base["index_dtype"])
         ctx.count("take_dimkind:" + (base.get("dimkind") or ("name" if base.get("style") == "dim" else "int")))
     if base.get("sweep"):
         ctx.count("axis_sweep")
@@ -326,7 +369,7 @@ def _count_case(ctx, base):
         ctx.count("big_int64:" + base["op"])
         if any(abs(v) > G.P53 for key in ("args", "args2") for a in (base.get(key) or []) for v in flat(a)):
             ctx.count("big_operand_beyond_2^53")
-    if dtype_of(base) == "f64":
+    if dtype_of(base) in ("f64", "f32", "f16"):
         vals = [v for a in base["args"] for v in flat(a)]
         if "nan" in vals:
             ctx.count("f64_with_nan")
@@ -351,6 +394,12 @@ def _evaluate(ctx, cases, with_model):
     """Run implementation + oracle on every case and its batched variants; optionally the model."""
     from earthkit.workflows import backends
     work = []           # (case, status, val)
+    STATS.clear()
+    st_ = bound_selftest()
+    ctx.extra["rounding_bound_selftest"] = st_
+    if not all(st_.values()):
+        from ekw.core import InfraError
+        raise InfraError("C15: the rounding bound fails its self-test: %s" % st_)
     reported = {}
     unmarked_fail = {}
     for base in cases:
@@ -400,6 +449,8 @@ def _evaluate(ctx, cases, with_model):
                     reported[key] += 1
                     ctx.violation(f[0], c, f[1])
             work.append((c, st, val))
+    for k_, n_ in sorted(STATS.items()):
+        ctx.count(k_, n_)
     ctx.extra["unmarked_ops_batch_law_fails_on_impl"] = {k: "%d of %d batched evaluations differ from f(all)" % (v[1], v[0])
                                                          for k, v in sorted(unmarked_fail.items())}
     if not with_model:
@@ -419,7 +470,10 @@ def _evaluate(ctx, cases, with_model):
     ndis = 0
     for c, st, val, at, reqs in index:
         ctx.traces += 1
-        impl = canon_impl(st, val)
+        for key_ in ["args"] + (["args2"] if c.get("args2") else []):
+            if dtype_of(c, key_) in ("f32", "f16", "c64", "c128"):
+                ctx.count("tie_values:%s:%s" % (value_mode(c, key_), dtype_of(c, key_)))
+        impl = canon_impl(st, val, c)
         if st == "error" and val[0] == "coords-presence" and mixed_presence(c):
             # which mixtures of labelled and unlabelled operands xarray's concat refuses is xarray's business (not modelled)
             ctx.count("tie_skipped:mixed-presence-refused")
@@ -433,7 +487,7 @@ def _evaluate(ctx, cases, with_model):
                 model.append(impl[vi] if vi < len(impl) else None)
                 ctx.count("dataset_variable_untouched")
             else:
-                model.append(canon_model(res[pos], c))
+                model.append(canon_model(res[pos], c, vi))
                 pos += 1
         # an error of the call is an error for every variable
         errs = [m for m in model if isinstance(m, dict) and "error" in m]
@@ -456,12 +510,12 @@ def _shape_of(a):
 
 
 def correspond(ctx):
-    n = ctx.budget(600, 12000)
+    n = ctx.budget(260, 12000)
     _evaluate(ctx, _cases(ctx, n), with_model=True)
 
 
 def oracle_only(ctx):
-    n = ctx.budget(600, 12000)
+    n = ctx.budget(260, 12000)
     _evaluate(ctx, _cases(ctx, n), with_model=False)
 
 
@@ -480,7 +534,7 @@ def search(ctx, why):
                 while len(c["args"]) < 3:
                     c = G.gen_case(rng, op, be)
                 cases.append(c)
-                cases.append(G.retype(rng, c, rng.choice(["u8", "i32", "bool"])))
+                cases.append(G.retype(rng, c, rng.choice(["u8", "i32", "bool", "f32", "i8", "u64"])))
     for d in why.get("disagreements", []):
         c = d.get("case") or {}
         if c.get("op") in ALL_OPS:
